@@ -615,6 +615,14 @@ func (broker *Broker) scan() []sts.Hashed {
 			// Add any that might have failed the hash calculation last time
 			wrapped = append(wrapped, &hashFile{File: cached})
 		case cached.IsDone() && broker.canDelete(cached):
+			// Only the version that was confirmed may be deleted: if the file
+			// on disk is not the one in the cache anymore (rewritten or created
+			// anew under the same name) leave it for the cache update below.
+			if changed, syncErr := store.Sync(cached); changed != nil ||
+				(syncErr != nil && !store.IsNotExist(syncErr)) {
+				log.Debug("Not deleting changed file:", cached.GetName())
+				break
+			}
 			err = broker.Conf.Store.Remove(cached)
 			if err != nil {
 				broker.error("Failed to delete aged file:", cached.GetName())
